@@ -32,14 +32,15 @@ class Mutant:
     new: str
     expect: Optional[str] = None   # rule id that must be named in the report (faults)
     all_occurrences: bool = False
+    more: tuple = ()               # further (file, old, new) edits applied together
 
 
-def F(prop, name, file, old, new, expect=None, all_occurrences=False):
-    return Mutant(prop, "fault", name, file, old, new, expect, all_occurrences)
+def F(prop, name, file, old, new, expect=None, all_occurrences=False, more=()):
+    return Mutant(prop, "fault", name, file, old, new, expect, all_occurrences, tuple(more))
 
 
-def N(prop, name, file, old, new, all_occurrences=False):
-    return Mutant(prop, "neutral", name, file, old, new, None, all_occurrences)
+def N(prop, name, file, old, new, all_occurrences=False, more=()):
+    return Mutant(prop, "neutral", name, file, old, new, None, all_occurrences, tuple(more))
 
 
 def load(prop: str) -> List[Mutant]:
@@ -69,11 +70,40 @@ def _run_one(m: Mutant, repo_root: str) -> dict:
     except SyntaxError as e:
         res["status"] = f"skipped: mutant does not compile ({e})"
         return res
+    extra_files = {}
+    for (f2, old2, new2) in m.more:
+        p2 = os.path.join(src_pkg, f2)
+        t2 = extra_files.get(f2)
+        if t2 is None:
+            if f2 == m.file:
+                t2 = new_text
+            elif os.path.isfile(p2):
+                with open(p2) as fd:
+                    t2 = fd.read()
+            else:
+                res["status"] = "skipped: file missing"
+                return res
+        if t2.count(old2) != 1:
+            res["status"] = f"skipped: anchor text of a further edit occurs {t2.count(old2)} times"
+            return res
+        t2 = t2.replace(old2, new2)
+        try:
+            ast.parse(t2)
+        except SyntaxError as e:
+            res["status"] = f"skipped: mutant does not compile ({e})"
+            return res
+        if f2 == m.file:
+            new_text = t2
+        else:
+            extra_files[f2] = t2
     tmp = tempfile.mkdtemp(prefix="vstatic-mut-")
     try:
         shutil.copytree(src_pkg, os.path.join(tmp, "pykdebugparser"), ignore=shutil.ignore_patterns("__pycache__"))
         with open(os.path.join(tmp, "pykdebugparser", m.file), "w") as fd:
             fd.write(new_text)
+        for f2, t2 in extra_files.items():
+            with open(os.path.join(tmp, "pykdebugparser", f2), "w") as fd:
+                fd.write(t2)
         env = dict(os.environ, VSTATIC_OUT=os.path.join(tmp, "out"), PYTHONDONTWRITEBYTECODE="1")
         p = subprocess.run([sys.executable, "-m", "vstatic", "check", m.prop, "--tier", "quick", "--repo", tmp],
                            cwd=VERIF, env=env, capture_output=True, text=True, timeout=300)
